@@ -1,27 +1,76 @@
 (* Properties_C06.v — C06: concurrent producers and consumers never lose or duplicate an event.
 
    The thread-level model QConc.v transcribes every API call of eventqueue.h into its visible
-   actions and the local code between them, and is replayed step for step against the real
-   queue (harness/qconc.cpp under the cooperative scheduler).  Proved here for every call and
-   all arguments: accesses to queueList happen under queueListMutex and to freeList under
-   freeListMutex (the unlocked `.empty()` pre-checks excepted, which the header makes on
-   purpose), and no call ever holds two mutexes — so there is no circular wait: "no call
-   deadlocks" on the mutexes.
-   PARTIAL: the ledger invariant (every enqueued event in exactly one place, for every
-   interleaving) is stated in DESIGN.md and checked on every replayed schedule by the monitor
-   of tools/qc_domain.py on the IMPLEMENTATION's trace; its Coq proof is not yet in place. *)
-From Coq Require Import List Arith NArith ZArith Bool.
-From EV Require Import QConc QConcProofs.
+   actions (lock, unlock, atomic increment/decrement/load, notify, condition wait) and the local
+   code between them, and is replayed step for step against the real queue (harness/qconc.cpp
+   under the cooperative scheduler harness/vsched.h, same schedule on both sides).
+
+   Proved here, for EVERY set of thread programs, EVERY schedule and EVERY number of steps
+   (QConcInv.v: a weakest-precondition calculus over the transcribed calls in which the shared
+   state is arbitrary at every read — interference by other threads is havoc — and an invariant
+   preserved by every scheduler decision):
+     C06_every_event_in_exactly_one_place   the enqueued events (ghost ledger, fresh ids) are a
+                                            permutation of queueList ++ events in flight in some
+                                            thread's locals ++ dispatched ++ taken ++ cleared, and
+                                            no id occurs twice in that list;
+     C06_no_event_consumed_twice            in particular no event is dispatched twice, dispatched
+                                            and taken, or consumed and still queued;
+     C06_finished_accounts_for_every_event  when all threads have finished, every enqueued event
+                                            was dispatched/taken/cleared exactly once or is still queued;
+     C06_logged_dispatches_are_the_ledger   the dispatch entries of the observable trace are exactly
+                                            the ledger's dispatches (the trace is what is compared
+                                            with the implementation);
+     C06_lock_discipline_and_no_nested_locks every access to queueList/freeList by local code is
+                                            under its mutex (the deliberate unlocked `.empty()`
+                                            pre-checks excepted) and no call holds two mutexes, so
+                                            there is no circular wait on the mutexes.
+   Granularity: threads interleave at the visible actions; local code between two visible actions
+   is atomic in the model.  That is justified by the lock discipline (local code touches shared
+   lists only under the mutex) but the reduction argument itself is not mechanised, nor is the
+   C++ memory model: data-race freedom of the real code is checked by the ThreadSanitizer build
+   of the harness in the thorough tier, not proved.  FIFO per producer-consumer pair holds only
+   without processIf/processUntil put-back (see DESIGN.md, P10). *)
+From Coq Require Import List Arith NArith ZArith Bool Permutation.
+From EV Require Import QConc QConcProofs QConcInv.
 Import ListNotations.
 
-Theorem C06_partial_lock_discipline_and_no_nested_locks : forall c, call_ok c = true.
+Theorem C06_every_event_in_exactly_one_place : forall progs schedule fuel,
+  let cfg := reached progs schedule fuel in
+  Permutation (g_enq (shs cfg)) (ql (shs cfg) ++ infl (ths cfg) ++ consumed (shs cfg)) /\
+  NoDup (map ceid (ql (shs cfg) ++ infl (ths cfg) ++ consumed (shs cfg))).
+Proof. exact every_event_in_exactly_one_place. Qed.
+Print Assumptions C06_every_event_in_exactly_one_place.
+
+Theorem C06_no_event_consumed_twice : forall progs schedule fuel,
+  let sh := shs (reached progs schedule fuel) in
+  NoDup (map ceid (ql sh ++ map snd (g_disp sh) ++ map snd (g_taken sh) ++ g_cleared sh)).
+Proof. exact no_event_consumed_twice. Qed.
+Print Assumptions C06_no_event_consumed_twice.
+
+Theorem C06_finished_accounts_for_every_event : forall progs schedule fuel,
+  let cfg := reached progs schedule fuel in
+  all_finished cfg = true ->
+  Permutation (g_enq (shs cfg)) (ql (shs cfg) ++ consumed (shs cfg)).
+Proof. exact finished_accounts_for_every_event. Qed.
+Print Assumptions C06_finished_accounts_for_every_event.
+
+Theorem C06_logged_dispatches_are_the_ledger : forall progs schedule fuel,
+  let sh := shs (reached progs schedule fuel) in
+  filter is_disp (clog sh) = map disp_act (g_disp sh).
+Proof. exact logged_dispatches_are_the_ledger. Qed.
+Print Assumptions C06_logged_dispatches_are_the_ledger.
+
+Theorem C06_lock_discipline_and_no_nested_locks : forall c, call_ok c = true.
 Proof. exact every_call_keeps_the_lock_discipline. Qed.
-Print Assumptions C06_partial_lock_discipline_and_no_nested_locks.
+Print Assumptions C06_lock_discipline_and_no_nested_locks.
 
 (* non-vacuity: a 3-thread run in which a consumer swaps the list out between a producer's two
-   enqueues; nothing is lost or duplicated *)
+   enqueues; both events are enqueued, all threads finish, nothing is lost or duplicated *)
 Example C06_example :
-  let tr := qc_run_case 400 [[AEnqueue 0 11%Z; AEnqueue 1 12%Z]; [AProcess; AProcessOne]; [ATake]]
-                        [0; 0; 0; 1; 1; 1; 1; 0; 0; 2; 2; 2; 1; 1; 0; 0; 1; 1; 1; 1; 2] in
-  length (filter (fun a => match a with CDisp _ _ _ | CTaken _ _ _ | CDrained _ _ => true | _ => false end) tr) = 2.
-Proof. vm_compute. reflexivity. Qed.
+  let progs := [[AEnqueue 0 11%Z; AEnqueue 1 12%Z]; [AProcess; AProcessOne]; [ATake]] in
+  let sched := [0; 0; 0; 1; 1; 1; 1; 0; 0; 2; 2; 2; 1; 1; 0; 0; 1; 1; 1; 1; 2] in
+  let cfg := reached progs sched 400 in
+  all_finished cfg = true /\ length (g_enq (shs cfg)) = 2 /\
+  length (filter (fun a => match a with CDisp _ _ _ | CTaken _ _ _ | CDrained _ _ => true | _ => false end)
+                 (qc_run_case 400 progs sched)) = 2.
+Proof. vm_compute. repeat split; reflexivity. Qed.
